@@ -207,7 +207,7 @@ def run_case(ctx, k, rng):
                 for _ in range(nd):
                     n = int(rng.integers(1, 6))
                     b = rng.uniform(-2, 4, n) if rng.random() < 0.6 else np.round(rng.uniform(-2, 4, n), 1)
-                    pers = rng.uniform(0.05, 60 * cur, n) if rng.random() < 0.6 else np.round(rng.uniform(0.1, 30 * cur, n), 1) + 0.1
+                    pers = rng.uniform(0.05 * cur, 60 * cur, n) if rng.random() < 0.6 else np.round(rng.uniform(0.1, max(30 * cur, 0.2), n), 1) + 0.1
                     dg.append(np.column_stack([b, b + pers]))
                 allp = np.vstack(dg)
                 bp = np.column_stack([allp[:, 0], allp[:, 1] - allp[:, 0]])
